@@ -1,6 +1,7 @@
 import TpmVerif.Base.Trace
 import TpmVerif.Model.Session
 import TpmVerif.Model.Context
+import TpmVerif.Model.ObjCtx
 /-! Correspondence checker for C11 traces (session accounting). -/
 namespace TpmVerif.Check.C11
 open TpmVerif TpmVerif.Model.Session
@@ -14,6 +15,8 @@ structure CS where
   dead : List (Nat × Nat) := []
   pol : List Nat := []         -- handle indices whose session is a policy session
   epoch : Nat := 0             -- number of TPM Resets seen (contexts of earlier epochs must not load)
+  now : TpmVerif.Model.ObjCtx.Now := {}                    -- what saved object contexts are bound to
+  octx : List (Nat × TpmVerif.Model.ObjCtx.Ctx) := []      -- saved object contexts by id
 
 def mism (c : CS) (msg : String) : CS :=
   { c with rep := { c.rep with mismatches := c.rep.mismatches ++ [s!"line {c.line}: {msg}"] } }
@@ -31,16 +34,65 @@ def rcName : RC → String
 
 def listStr (l : List Nat) : String := if l.isEmpty then "-" else ",".intercalate (l.map toString)
 
+
+def hierOf (n : Nat) : TpmVerif.Model.ObjCtx.Hier :=
+  if n = 0 then .owner else if n = 1 then .endorsement else if n = 2 then .platform else .null
+
+/-- lines of the object-context part (`o op=…`) -/
+def stepObj (c : CS) (l : Line) : CS :=
+  let c := { c with rep := { c.rep with events := c.rep.events + 1 } }
+  match l.str "op" with
+  | "save" =>
+      if l.nat "rc" ≠ 0 then branch c "obj/save-failed" else
+      let h := hierOf (l.nat "hier"); let stc : Bool := l.nat "stclear" == 1
+      let c := branch c s!"obj/save/hier={l.nat "hier"}/stclear={stc}/enabled={c.now.enabled h}"
+      -- the saved handle tells the kind of object: 0x80000002 for an stClear object, 0x80000000 otherwise
+      let c := if l.nat "saved_h" ≠ (if stc then 0x80000002 else 0x80000000) then mism c s!"SPEC[context-saved-handle] savedHandle {l.nat "saved_h"} of an object with stClear={stc}" else c
+      { c with octx := (l.nat "id", TpmVerif.Model.ObjCtx.save c.now h stc) :: c.octx }
+  | "event" =>
+      if l.nat "rc" ≠ 0 then branch c s!"obj/event-refused/{l.str "kind"}" else
+      let e : Option TpmVerif.Model.ObjCtx.Event := match l.str "kind" with
+        | "clear" => some .clear | "changeEPS" => some .changeEPS | "changePPS" => some .changePPS
+        | "control" => some (.control (hierOf (l.nat "hier")) (l.nat "state" == 1)) | _ => none
+      match e with
+      | none => mism c s!"unknown event {l.str "kind"}"
+      | some e => branch { c with now := TpmVerif.Model.ObjCtx.step c.now e } s!"obj/event/{l.str "kind"}"
+  | "load" =>
+      match c.octx.find? (·.1 == l.nat "id") with
+      | none => mism c s!"load of an unknown object context {l.nat "id"}"
+      | some (_, x) =>
+        let exp := TpmVerif.Model.ObjCtx.load x c.now
+        let rc := l.nat "rc"
+        let c := branch c s!"obj/load/model={repr exp}/rc={rc}/stclear={x.stClear}"
+        match exp with
+        | .ok =>
+          if rc = 0x902 then c else    -- no free object slot: not judged
+          if rc ≠ 0 then mism c s!"SPEC[context-refused] an intact object context (hierarchy enabled, no reset, proof unchanged) was refused rc={rc}" else
+          let c := if l.nat "same_name" ≠ 1 then mism c "SPEC[context-restores-different] the loaded object has a different Name than the saved one" else c
+          if l.nat "same_mac" ≠ 1 then mism c "SPEC[context-restores-different] the loaded key computes a different HMAC than the saved one" else c
+        | .integrity =>
+          if rc = 0 then mism c s!"SPEC[stale-context-loaded] an object context loaded although the TPM was reset / its hierarchy's proof was replaced / (stClear) restarted since the save"
+          else if rc ≠ 0x1DF then mism c s!"object context: rc={rc}, model TPM_RC_INTEGRITY" else c
+        | .hierarchy =>
+          if rc = 0 then mism c s!"SPEC[disabled-hierarchy-context-loaded] an object context loaded while its hierarchy is disabled"
+          else if rc ≠ 0x1C5 then mism c s!"object context: rc={rc}, model TPM_RC_HIERARCHY" else c
+  | "mutload" =>
+      let c := branch c s!"obj/mutload/rc0={decide (l.nat "rc" = 0)}"
+      if l.nat "rc" = 0 then mism c s!"SPEC[altered-context-loaded] an altered object context (byte {l.nat "off"}) was accepted by ContextLoad" else c
+  | _ => c
+
 def step (c : CS) (l : Line) : CS :=
   let c := { c with line := c.line + 1 }
-  if l.kind ≠ "s" then (if l.kind = "hist" then { c with dead := [] } else c) else
+  if l.kind = "o" then stepObj c l else
+  if l.kind ≠ "s" then (if l.kind = "hist" then { c with dead := [], now := {}, octx := [] } else c) else
   let c := { c with rep := { c.rep with events := c.rep.events + 1 } }
   match l.str "op" with
   | "startup" =>
       if l.nat? "rc" = none ∨ l.nat "rc" = 0 then
         let c := branch c s!"startup/reset={l.nat "reset"}"
+        let ev : TpmVerif.Model.ObjCtx.Event := if l.nat "reset" = 1 then .reset else if l.nat "su" = 1 then .resume else .restart
         { c with st := startup c.st (l.nat "reset" = 1), dead := if l.nat "reset" = 1 then [] else c.dead,
-                 epoch := if l.nat "reset" = 1 then l.nat "epoch" else c.epoch }
+                 epoch := if l.nat "reset" = 1 then l.nat "epoch" else c.epoch, now := TpmVerif.Model.ObjCtx.step c.now ev }
       else c
   | "poke" => { c with st := { c.st with counter := l.nat "counter", mask := l.nat "mask" } }
   | "resume" => if l.nat "ret" ≠ 0 then mism c s!"resume failed ret={l.nat "ret"}" else c
